@@ -17,6 +17,9 @@ pub struct Built {
     pub receivers: HashMap<usize, SecretKey>,
     pub orig: HashMap<usize, (AssetId, u64)>,
     pub assets: HashMap<String, AssetId>,
+    pub iss_amount: u64,
+    pub iss_tokens: u64,
+    pub spks: Vec<Script>,
 }
 
 fn p2wpkh(r: &mut Rng) -> Script {
@@ -43,6 +46,10 @@ pub fn build(sk: &Value, r: &mut Rng, explicit_only: bool) -> Built {
     }
     let iss_on = sk["iss_on"].as_u64().unwrap_or(0) as usize;
     let iss_v = sk["iss_v"].as_u64().unwrap_or(0);
+    let iss_tv = sk["iss_tv"].as_u64().unwrap_or(0);
+    let (iss_vc, iss_tc) = (sk["iss_vc"].as_bool().unwrap_or(false), sk["iss_tc"].as_bool().unwrap_or(false));
+    scales.insert("T".to_string(), if explicit_only { 1 } else { 1 + (r.next_u64() % 1000) });
+    let (mut iss_amount, mut iss_tokens) = (0u64, 0u64);
     let (mut txins, mut utxos, mut secrets) = (vec![], vec![], vec![]);
     for (k, i) in ins.iter().enumerate() {
         let a = i["asset"].as_str().unwrap();
@@ -60,15 +67,41 @@ pub fn build(sk: &Value, r: &mut Rng, explicit_only: bool) -> Built {
         secrets.push(TxOutSecrets::new(id, abf, v, vbf));
         let mut txin = TxIn { previous_output: OutPoint::new(Txid::from_byte_array(pools::bytes32(r)), k as u32), ..Default::default() };
         if iss_on == k + 1 {
-            let amount = iss_v * scales["N"];
-            txin.asset_issuance = AssetIssuance { asset_blinding_nonce: elements::secp256k1_zkp::ZERO_TWEAK, asset_entropy: pools::bytes32(r), amount: CValue::Explicit(amount), inflation_keys: CValue::Null };
-            let (asset_id, _) = txin.issuance_ids();
+            iss_amount = iss_v * scales["N"];
+            iss_tokens = iss_tv * scales["T"];
+            let contract = pools::bytes32(r);
+            txin.asset_issuance = AssetIssuance {
+                asset_blinding_nonce: elements::secp256k1_zkp::ZERO_TWEAK, asset_entropy: contract,
+                amount: if iss_amount > 0 { CValue::Explicit(iss_amount) } else { CValue::Null },
+                inflation_keys: if iss_tokens > 0 { CValue::Explicit(iss_tokens) } else { CValue::Null },
+            };
+            // ids by the constructors (not through TxIn::issuance_ids): the token id depends on whether the amount is committed
+            let entropy = AssetId::generate_asset_entropy(txin.previous_output, elements::ContractHash::from_byte_array(contract));
+            let asset_id = AssetId::from_entropy(entropy);
+            let token_id = AssetId::reissuance_token_from_entropy(entropy, iss_vc && iss_amount > 0);
             assets.insert("N".to_string(), asset_id);
-            secrets.push(TxOutSecrets::new(asset_id, AssetBlindingFactor::zero(), amount, ValueBlindingFactor::zero()));
+            assets.insert("T".to_string(), token_id);
+            let (ivbf, tvbf) = (pools::vbf(r), pools::vbf(r));
+            // committed issuance amounts are built with the lower-level constructor, each under the unblinded generator of
+            // its own id (TxIn::blind_issuances derives the token id before the amount is committed: see DESIGN.md, observations)
+            let empty = Script::new();
+            if iss_vc && iss_amount > 0 {
+                let (comm, prf) = CValue::Explicit(iss_amount).blind_with_shared_secret(secp, ivbf, pools::secret_key(r), &empty, &elements::RangeProofMessage::new(asset_id, AssetBlindingFactor::zero())).expect("issuance amount");
+                txin.asset_issuance.amount = comm;
+                txin.witness.amount_rangeproof = Some(Box::new(prf));
+            }
+            if iss_tc && iss_tokens > 0 {
+                let (comm, prf) = CValue::Explicit(iss_tokens).blind_with_shared_secret(secp, tvbf, pools::secret_key(r), &empty, &elements::RangeProofMessage::new(token_id, AssetBlindingFactor::zero())).expect("issuance tokens");
+                txin.asset_issuance.inflation_keys = comm;
+                txin.witness.inflation_keys_rangeproof = Some(Box::new(prf));
+            }
+            if iss_amount > 0 { secrets.push(TxOutSecrets::new(asset_id, AssetBlindingFactor::zero(), iss_amount, if iss_vc { ivbf } else { ValueBlindingFactor::zero() })); }
+            if iss_tokens > 0 { secrets.push(TxOutSecrets::new(token_id, AssetBlindingFactor::zero(), iss_tokens, if iss_tc { tvbf } else { ValueBlindingFactor::zero() })); }
         }
         txins.push(txin);
     }
     assets.entry("N".to_string()).or_insert_with(|| pools::asset_id(r));
+    assets.entry("T".to_string()).or_insert_with(|| pools::asset_id(r));
     let mut receivers = HashMap::new();
     let mut orig = HashMap::new();
     let mut txouts = vec![];
@@ -87,13 +120,18 @@ pub fn build(sk: &Value, r: &mut Rng, explicit_only: bool) -> Built {
         } else { Nonce::Null };
         txouts.push(TxOut { asset: Asset::Explicit(assets[a]), value: CValue::Explicit(v), nonce, script_pubkey: script, witness: Default::default() });
     }
-    Built { tx: Transaction { version: 2, lock_time: elements::LockTime::ZERO, input: txins, output: txouts }, utxos, secrets, receivers, orig, assets }
+    let spks = txouts.iter().map(|o: &TxOut| o.script_pubkey.clone()).collect();
+    Built { tx: Transaction { version: 2, lock_time: elements::LockTime::ZERO, input: txins, output: txouts }, utxos, secrets, receivers, orig, assets, iss_amount, iss_tokens, spks }
 }
 
 fn sk_class(sk: &Value) -> String {
     let ins: Vec<String> = sk["ins"].as_array().unwrap().iter().map(|i| format!("{}{}", i["asset"].as_str().unwrap(), if i["conf"] == true { "c" } else { "e" })).collect();
-    let outs: Vec<String> = sk["outs"].as_array().unwrap().iter().map(|o| format!("{}{}", o["asset"].as_str().unwrap(), if o["fee"] == true { "f" } else if o["marked"] == true { "m" } else if o["burn"] == true { "0" } else { "u" })).collect();
-    format!("in={}{}/out={}", ins.join(","), if sk["iss_on"].as_u64().unwrap_or(0) > 0 { "+iss" } else { "" }, outs.join(","))
+    let outs: Vec<String> = sk["outs"].as_array().unwrap().iter().map(|o| format!("{}{}", o["asset"].as_str().unwrap(), if o["fee"] == true { "f" } else if o["marked"] == true { match o["want"].as_str().unwrap_or("full") { "value" => "v", "asset" => "a", _ => "m" } } else if o["burn"] == true { "0" } else { "u" })).collect();
+    let iss = if sk["iss_on"].as_u64().unwrap_or(0) > 0 {
+        format!("+iss({}{},{}{})", if sk["iss_v"].as_u64().unwrap_or(0) > 0 { "amt" } else { "null" }, if sk["iss_vc"] == true { "*" } else { "" },
+                if sk["iss_tv"].as_u64().unwrap_or(0) > 0 { "tok" } else { "null" }, if sk["iss_tc"] == true { "*" } else { "" })
+    } else { String::new() };
+    format!("in={}{}/out={}", ins.join(","), iss, outs.join(","))
 }
 
 type Bad = Vec<(String, String)>;
@@ -153,6 +191,76 @@ fn blind_and_check(b: &Built, r: &mut Rng, cls: &str, bad: &mut Bad) -> Option<(
     Some((tx, factors))
 }
 
+/// Hand-blinding with the lower-level constructors: each marked output in the mode the skeleton asks for
+/// ("full": asset and value committed, "value": value committed under the unblinded generator of an explicit asset,
+/// "asset": explicit value under a blinded generator); the last marked output absorbs the balance.
+fn manual_blind(b: &Built, sk: &Value, r: &mut Rng) -> Result<(Transaction, HashMap<usize, (AssetBlindingFactor, ValueBlindingFactor)>), String> {
+    use elements::{Address, AddressParams, RangeProofMessage};
+    let secp = pools::secp();
+    let mut tx = b.tx.clone();
+    let outs = sk["outs"].as_array().unwrap();
+    let marked: Vec<usize> = outs.iter().enumerate().filter(|(_, o)| o["marked"] == true && o["fee"] != true).map(|(k, _)| k).collect();
+    let last = *marked.last().ok_or("no marked output")?;
+    let mut factors = HashMap::new();
+    let mut out_secrets: Vec<TxOutSecrets> = vec![];
+    for &k in &marked {
+        let (asset, value) = b.orig[&k];
+        let want = outs[k]["want"].as_str().unwrap_or("full");
+        let blinder = tx.output[k].nonce.commitment().ok_or("marked output without a blinding key")?;
+        let spk = tx.output[k].script_pubkey.clone();
+        if k != last {
+            match want {
+                "full" => {
+                    let addr = Address::from_script(&spk, Some(blinder), &AddressParams::ELEMENTS).ok_or("address")?;
+                    let (o, abf, vbf, _) = TxOut::new_not_last_confidential(r, secp, value, &addr, asset, &b.secrets).map_err(|e| e.to_string())?;
+                    tx.output[k] = o;
+                    factors.insert(k, (abf, vbf));
+                    out_secrets.push(TxOutSecrets::new(asset, abf, value, vbf));
+                }
+                "value" => {
+                    let vbf = pools::vbf(r);
+                    let msg = RangeProofMessage::new(asset, AssetBlindingFactor::zero());
+                    let (comm, prf) = CValue::Explicit(value).blind_with_shared_secret(secp, vbf, pools::secret_key(r), &spk, &msg).map_err(|e| e.to_string())?;
+                    tx.output[k].value = comm;
+                    tx.output[k].witness.rangeproof = Some(Box::new(prf));
+                    factors.insert(k, (AssetBlindingFactor::zero(), vbf));
+                    out_secrets.push(TxOutSecrets::new(asset, AssetBlindingFactor::zero(), value, vbf));
+                }
+                "asset" => {
+                    let abf = pools::abf(r);
+                    let (a, sp) = Asset::Explicit(asset).blind(r, secp, abf, &b.secrets).map_err(|e| e.to_string())?;
+                    tx.output[k].asset = a;
+                    tx.output[k].witness.surjection_proof = Some(Box::new(sp));
+                    factors.insert(k, (abf, ValueBlindingFactor::zero()));
+                    out_secrets.push(TxOutSecrets::new(asset, abf, value, ValueBlindingFactor::zero()));
+                }
+                x => return Err(format!("mode {}", x)),
+            }
+        } else {
+            let ins: Vec<(u64, AssetBlindingFactor, ValueBlindingFactor)> = b.secrets.iter().map(|s| (s.value, s.asset_bf, s.value_bf)).collect();
+            let os: Vec<(u64, AssetBlindingFactor, ValueBlindingFactor)> = out_secrets.iter().map(|s| (s.value, s.asset_bf, s.value_bf)).collect();
+            match want {
+                "full" => {
+                    let refs: Vec<&TxOutSecrets> = out_secrets.iter().collect();
+                    let (o, abf, vbf, _) = TxOut::new_last_confidential(r, secp, value, asset, spk, blinder, &b.secrets, &refs).map_err(|e| e.to_string())?;
+                    tx.output[k] = o;
+                    factors.insert(k, (abf, vbf));
+                }
+                "value" => {
+                    let vbf = ValueBlindingFactor::last(secp, value, AssetBlindingFactor::zero(), &ins, &os);
+                    let msg = RangeProofMessage::new(asset, AssetBlindingFactor::zero());
+                    let (comm, prf) = CValue::Explicit(value).blind_with_shared_secret(secp, vbf, pools::secret_key(r), &spk, &msg).map_err(|e| e.to_string())?;
+                    tx.output[k].value = comm;
+                    tx.output[k].witness.rangeproof = Some(Box::new(prf));
+                    factors.insert(k, (AssetBlindingFactor::zero(), vbf));
+                }
+                x => return Err(format!("last output in mode {}", x)),
+            }
+        }
+    }
+    Ok((tx, factors))
+}
+
 fn flip(bytes: &[u8], r: &mut Rng, lo: usize) -> Vec<u8> {
     let mut v = bytes.to_vec();
     let i = lo + (r.next_u32() as usize) % (v.len() - lo);
@@ -165,8 +273,8 @@ fn apply_tamper(t: &Value, tx: &mut Transaction, utxos: &mut Vec<TxOut>, b: &Bui
     let k = t["k"].as_u64().unwrap() as usize;
     let j = t["j"].as_u64().unwrap() as usize;
     match t["kind"].as_str().unwrap() {
-        "out_amount" => tx.output[k - 1].value = CValue::Explicit(tx.output[k - 1].value.explicit().unwrap() + 1),
-        "out_asset" => { let cur = tx.output[k - 1].asset.explicit().unwrap(); let other = if cur == b.assets["A"] { b.assets["B"] } else { b.assets["A"] }; tx.output[k - 1].asset = Asset::Explicit(other); }
+        "out_amount" => match tx.output[k - 1].value.explicit() { Some(x) => tx.output[k - 1].value = CValue::Explicit(x + 1), None => return false },
+        "out_asset" => { let Some(cur) = tx.output[k - 1].asset.explicit() else { return false }; let other = if cur == b.assets["A"] { b.assets["B"] } else { b.assets["A"] }; tx.output[k - 1].asset = Asset::Explicit(other); }
         "replace_value_commit" => { let (a, v) = b.orig[&(k - 1)]; let (abf, _) = factors[&(k - 1)]; tx.output[k - 1].value = CValue::new_confidential_from_assetid(secp, v, a, pools::vbf(r), abf); }
         "replace_asset_commit" => { let (a, _) = b.orig[&(k - 1)]; tx.output[k - 1].asset = Asset::new_confidential(secp, a, pools::abf(r)); }
         "swap_commitments" => { let (x, y) = (tx.output[k - 1].value, tx.output[j - 1].value); tx.output[k - 1].value = y; tx.output[j - 1].value = x; }
@@ -189,9 +297,25 @@ fn apply_tamper(t: &Value, tx: &mut Transaction, utxos: &mut Vec<TxOut>, b: &Bui
         "swap_rp" => { let x = tx.output[k - 1].witness.rangeproof.clone(); tx.output[k - 1].witness.rangeproof = tx.output[j - 1].witness.rangeproof.clone(); tx.output[j - 1].witness.rangeproof = x; }
         "swap_sp" => { let x = tx.output[k - 1].witness.surjection_proof.clone(); tx.output[k - 1].witness.surjection_proof = tx.output[j - 1].witness.surjection_proof.clone(); tx.output[j - 1].witness.surjection_proof = x; }
         "change_script" => tx.output[k - 1].script_pubkey = p2wpkh(r),
-        "issuance_amount" => { for i in tx.input.iter_mut() { if let CValue::Explicit(x) = i.asset_issuance.amount { i.asset_issuance.amount = CValue::Explicit(x + 1); } } }
+        "issuance_amount" => { for i in tx.input.iter_mut() { match i.asset_issuance.amount {
+            CValue::Explicit(x) => i.asset_issuance.amount = CValue::Explicit(x + 1),
+            CValue::Confidential(_) => i.asset_issuance.amount = CValue::new_confidential(secp, b.iss_amount, elements::secp256k1_zkp::Generator::new_unblinded(secp, b.assets["N"].into_tag()), pools::vbf(r)),
+            CValue::Null => {} } } }
+        "issuance_tokens" => { for i in tx.input.iter_mut() { match i.asset_issuance.inflation_keys {
+            CValue::Explicit(x) => i.asset_issuance.inflation_keys = CValue::Explicit(x + 1),
+            CValue::Confidential(_) => i.asset_issuance.inflation_keys = CValue::new_confidential(secp, b.iss_tokens, elements::secp256k1_zkp::Generator::new_unblinded(secp, b.assets["T"].into_tag()), pools::vbf(r)),
+            CValue::Null => {} } } }
         "utxo_value" => { utxos[k - 1].value = match utxos[k - 1].value { CValue::Explicit(x) => CValue::Explicit(x + 1), _ => pools::conf_value(r) }; }
-        "utxo_asset" => { utxos[k - 1].asset = match utxos[k - 1].asset { Asset::Explicit(cur) => Asset::Explicit(if cur == b.assets["A"] { b.assets["B"] } else { b.assets["A"] }), _ => pools::conf_asset(r) }; }
+        "utxo_asset" => {
+            // a spent output of the other asset: for a confidential one both commitments are re-made for that asset
+            // (replacing the generator alone leaves the value commitment, and hence the balance, untouched)
+            let s = b.secrets_of_input(k - 1);
+            let other = if s.asset == b.assets["A"] { b.assets["B"] } else { b.assets["A"] };
+            match utxos[k - 1].asset {
+                Asset::Explicit(_) => utxos[k - 1].asset = Asset::Explicit(other),
+                _ => { utxos[k - 1].asset = Asset::new_confidential(secp, other, s.asset_bf); utxos[k - 1].value = CValue::new_confidential_from_assetid(secp, s.value, other, s.value_bf, s.asset_bf); }
+            }
+        }
         "utxo_vbf" => { let s = b.secrets_of_input(k - 1); utxos[k - 1].value = CValue::new_confidential_from_assetid(secp, s.value, s.asset, pools::vbf(r), s.asset_bf); }
         "utxo_abf" => { let s = b.secrets_of_input(k - 1); let abf = pools::abf(r); utxos[k - 1].asset = Asset::new_confidential(secp, s.asset, abf); utxos[k - 1].value = CValue::new_confidential_from_assetid(secp, s.value, s.asset, s.value_bf, abf); }
         "utxo_drop_last" => { utxos.pop(); }
@@ -207,7 +331,7 @@ impl Built {
         let mut idx = 0;
         for (n, i) in self.tx.input.iter().enumerate() {
             if n == k { return self.secrets[idx]; }
-            idx += 1 + usize::from(i.has_issuance());
+            idx += 1 + usize::from(!i.asset_issuance.amount.is_null()) + usize::from(!i.asset_issuance.inflation_keys.is_null());
         }
         panic!("input index");
     }
@@ -226,7 +350,12 @@ fn run_case(c: &Value, ci: usize, seed: u64, k: u64, do_c04: bool, do_c05: bool)
             let mut n = 1u64;
             let b = build(sk, &mut r, false);
             let mut scratch: Bad = vec![];
-            let blinded = blind_and_check(&b, &mut r, &cls, if do_c04 { &mut bad } else { &mut scratch });
+            let manual = sk["manual"] == true;
+            let blinded = if manual {
+                // hand-blinded bases exist for the verifier (C05) only
+                if !do_c05 { return (bad, 0); }
+                match manual_blind(&b, sk, &mut r) { Ok(x) => Some(x), Err(e) => { bad.push((format!("C05/manual-base-not-constructible/{}", cls), e)); None } }
+            } else { blind_and_check(&b, &mut r, &cls, if do_c04 { &mut bad } else { &mut scratch }) };
             if let (true, Some((tx, factors))) = (do_c05, blinded) {
                 if tx.verify_tx_amt_proofs(pools::secp(), &b.utxos).is_ok() {
                     for t in c["tampers"].as_array().unwrap() {
@@ -246,8 +375,8 @@ fn run_case(c: &Value, ci: usize, seed: u64, k: u64, do_c04: bool, do_c05: bool)
                             }
                         }
                     }
-                } else if !do_c04 {
-                    bad.push((format!("C05/base-does-not-verify/{}", cls), String::new()));
+                } else if !do_c04 || manual {
+                    bad.push((format!("C05/base-does-not-verify/{}", cls), format!("{:?}", tx.verify_tx_amt_proofs(pools::secp(), &b.utxos))));
                 }
             }
             (bad, n)
@@ -288,31 +417,50 @@ pub fn replay(args: &[String], out: &mut Out) {
 pub fn explicit(args: &[String], out: &mut Out) {
     let cases = read_ndjson(&arg(args, "--cases").expect("--cases"));
     let seed = arg_u64(args, "--seed", 1);
+    let threads = arg_u64(args, "--threads", 8) as usize;
+    let indexed: Vec<(usize, &Value)> = cases.iter().enumerate().collect();
+    let results: Vec<Vec<(String, Value, String)>> = std::thread::scope(|sc| {
+        let hs: Vec<_> = (0..threads).map(|t| { let indexed = &indexed; sc.spawn(move || {
+            crate::util::quiet_panics();
+            let mut bad = vec![];
+            for (ci, c) in indexed.iter().filter(|(i, _)| i % threads == t) { explicit_case(*ci, c, seed, &mut bad); }
+            bad
+        }) }).collect();
+        hs.into_iter().map(|h| h.join().unwrap()).collect()
+    });
     for (ci, c) in cases.iter().enumerate() {
         out.count("distinct_cases");
         out.count("evaluations");
         if ci % 3000 == 11 { out.sample(c.clone()); }
-        let mut r = rng(seed, 0x0500_0000 + ci as u64);
-        let sk = json!({"ins": c["ins"], "outs": c["outs"], "iss_on": if c["iss"] == true { 1 } else { 0 }, "iss_v": 1});
-        let verdict = c["verdict"].as_str().unwrap();
-        let res = guard(|| {
-            let mut b = build(&sk, &mut r, true);
-            // one scale for everything: the model's balance must be the real balance
-            let unit = 1 + (r.next_u64() % 100_000);
-            for (k, i) in c["ins"].as_array().unwrap().iter().enumerate() { b.utxos[k].value = CValue::Explicit(i["v"].as_u64().unwrap() * unit); }
-            for (k, o) in c["outs"].as_array().unwrap().iter().enumerate() { b.tx.output[k].value = CValue::Explicit(o["v"].as_u64().unwrap() * unit); }
-            for i in b.tx.input.iter_mut() { if i.has_issuance() { i.asset_issuance.amount = CValue::Explicit(unit); } }
-            b.tx.verify_tx_amt_proofs(pools::secp(), &b.utxos).map_err(|e| format!("{:?}", e))
-        });
-        let case = json!({"case": c, "seed": seed});
-        match res {
-            Err(p) => out.viol(&format!("C05/panic/{}", last_panic_loc()), case, p),
-            Ok(got) => {
-                if got.is_ok() != (verdict == "OK") {
-                    let zero_unsp = c["outs"].as_array().unwrap().iter().any(|o| o["v"] == 0 && o["script"] == "unspendable");
-                    let key = if verdict == "OK" { format!("C05/explicit/balanced-rejected{}", if zero_unsp { "/zero-value-on-unspendable-script" } else { "" }) } else { format!("C05/explicit/unbalanced-accepted/{}", verdict) };
-                    out.viol(&key, case, format!("library {:?}, specification {}", got, verdict));
-                }
+    }
+    for bad in results { for (k, c, d) in bad { out.viol(&k, c, d); } }
+}
+
+fn explicit_case(ci: usize, c: &Value, seed: u64, bad: &mut Vec<(String, Value, String)>) {
+    let mut r = rng(seed, 0x0500_0000 + ci as u64);
+    let issk = c["iss"].as_u64().unwrap();
+    let sk = json!({"ins": c["ins"], "outs": c["outs"], "iss_on": if issk > 0 { 1 } else { 0 }, "iss_v": if issk == 1 || issk == 3 { 1 } else { 0 }, "iss_tv": if issk >= 2 { 1 } else { 0 }});
+    let verdict = c["verdict"].as_str().unwrap();
+    let res = guard(|| {
+        let mut b = build(&sk, &mut r, true);
+        // one scale for everything: the model's balance must be the real balance
+        let unit = 1 + (r.next_u64() % 100_000);
+        for (k, i) in c["ins"].as_array().unwrap().iter().enumerate() { b.utxos[k].value = CValue::Explicit(i["v"].as_u64().unwrap() * unit); }
+        for (k, o) in c["outs"].as_array().unwrap().iter().enumerate() { b.tx.output[k].value = CValue::Explicit(o["v"].as_u64().unwrap() * unit); }
+        for i in b.tx.input.iter_mut() { if i.has_issuance() {
+            if !i.asset_issuance.amount.is_null() { i.asset_issuance.amount = CValue::Explicit(unit); }
+            if !i.asset_issuance.inflation_keys.is_null() { i.asset_issuance.inflation_keys = CValue::Explicit(unit); }
+        } }
+        b.tx.verify_tx_amt_proofs(pools::secp(), &b.utxos).map_err(|e| format!("{:?}", e))
+    });
+    let case = json!({"case": c, "seed": seed});
+    match res {
+        Err(p) => bad.push((format!("C05/panic/{}", last_panic_loc()), case, p)),
+        Ok(got) => {
+            if got.is_ok() != (verdict == "OK") {
+                let zero_unsp = c["outs"].as_array().unwrap().iter().any(|o| o["v"] == 0 && o["script"] == "unspendable");
+                let key = if verdict == "OK" { format!("C05/explicit/balanced-rejected{}", if zero_unsp { "/zero-value-on-unspendable-script" } else { "" }) } else { format!("C05/explicit/unbalanced-accepted/{}", verdict) };
+                bad.push((key, case, format!("library {:?}, specification {}", got, verdict)));
             }
         }
     }
